@@ -350,6 +350,7 @@ def _filter_comp_as_loop(interp, e, env, it, spec):
 def _comp_rec(interp, e, env, kind, gi, pre_items=None):
     from .interp import Env
     out_list, out_dict = [], {}
+    sdict = [None]
     sub = Env(parent=env, globals=env.globals)
 
     def rec(gi, scope):
@@ -371,15 +372,21 @@ def _comp_rec(interp, e, env, kind, gi, pre_items=None):
                 rec(gi + 1, scope)
             elif isinstance(e, ast.DictComp):
                 k = interp.eval(e.key, scope)
-                if isinstance(k, Sym):
-                    raise Unsupported("dict comprehension with symbolic key")
-                out_dict[k] = interp.eval(e.value, scope)
+                if isinstance(k, Sym) or sdict[0] is not None:
+                    if not getattr(interp.ctx, "symbolic_key_dicts", False):
+                        raise Unsupported("dict comprehension with symbolic key")
+                    from .dictmodel import SmallDict
+                    if sdict[0] is None:
+                        sdict[0] = SmallDict(list(out_dict.items()))
+                    sdict[0].vf_setitem(interp, k, interp.eval(e.value, scope))
+                else:
+                    out_dict[k] = interp.eval(e.value, scope)
             else:
                 out_list.append(interp.eval(e.elt, scope))
 
     rec(0, sub)
     if isinstance(e, ast.DictComp):
-        return out_dict
+        return sdict[0] if sdict[0] is not None else out_dict
     if kind == "set":
         from . import setmodel
         return setmodel.make_set(interp, out_list)
